@@ -1,0 +1,75 @@
+//go:build verif
+
+package ecs
+
+// Contracts for storage.go.
+//
+// indexInv is the part of the world invariant that couples the entity pool, the entity index
+// and the rows of the tables (I-pool + I-index of DESIGN.md):
+//   - every row of every table holds an issued, alive entity whose index entry points back at
+//     exactly that row;
+//   - every live pool slot has an index entry that points at a row holding exactly that entity.
+
+//@ pred indexInv(s *storage) :=
+//@      poolInv(&s.entityPool)
+//@   && len(s.entities) == len(s.entityPool.entities) && len(s.isTarget) == len(s.entities)
+//@   && uint64(len(s.tables)) < 1<<32
+//@   && (forall t uint32 :: __trigger(s.tables[t].len) && __trigger(s.tables[t].archetype) && (uint64(t) < uint64(len(s.tables)) ==>
+//@         s.tables[t].len <= s.tables[t].cap && uint64(s.tables[t].archetype) < uint64(len(s.archetypes))))
+//@   && (forall t uint32, r uint32 :: __trigger(rowEnt(&s.tables[t])[r]) && (uint64(t) < uint64(len(s.tables)) && r < s.tables[t].len ==>
+//@         alive(&s.entityPool, rowEnt(&s.tables[t])[r]) && epIssued(&s.entityPool)[rowEnt(&s.tables[t])[r]]
+//@         && s.entities[rowEnt(&s.tables[t])[r].id].table == tableID(t) && s.entities[rowEnt(&s.tables[t])[r].id].row == r))
+//@   && (forall i uint32 :: __trigger(epRank(&s.entityPool)[i]) && (s.entityPool.reserved <= entityID(i) && uint64(i) < uint64(len(s.entityPool.entities)) && epRank(&s.entityPool)[i] == 0 ==>
+//@         uint64(s.entities[i].table) < uint64(len(s.tables)) && s.entities[i].row < s.tables[s.entities[i].table].len
+//@         && rowEnt(&s.tables[s.entities[i].table])[s.entities[i].row] == s.entityPool.entities[i]
+//@         && epIssued(&s.entityPool)[s.entityPool.entities[i]]))
+
+// Callback frame (DESIGN 3.4): observer callbacks run under the world lock, so they cannot
+// complete a structural operation (C07); what they may touch (component values, observer and
+// filter registrations, their own queries) is outside the state these contracts describe.
+//@ func (*observerManager).FireRemoveEntity
+//@   serves C09
+//@   trusted
+//@   requires mask != nil
+//@   modifies nothing
+
+//@ func (*observerManager).FireRemoveEntityRel
+//@   serves C09
+//@   trusted
+//@   requires mask != nil
+//@   modifies nothing
+
+//@ func (*storage).cleanupArchetypes
+//@   serves C04
+//@   trusted
+//@   requires indexInv(s)
+//@   ensures  inv: indexInv(s)
+//@   ensures  pool: forall h Entity :: alive(&s.entityPool, h) == old(alive(&s.entityPool, h))
+//@   ensures  issued: forall h Entity :: epIssued(&s.entityPool)[h] == old(epIssued(&s.entityPool)[h])
+//@   ensures  count: *epAlive(&s.entityPool) == old(*epAlive(&s.entityPool))
+
+//@ func (*storage).createEntity
+//@   serves C01 C02 C09
+//@   requires indexInv(s) && uint64(table) < uint64(len(s.tables)) && uint64(len(s.entityPool.entities)) < 1<<32 - 1
+//@   requires s.tables[table].len < 1<<31
+//@   ensures  inv: indexInv(s)
+//@   ensures  fresh: !old(epIssued(&s.entityPool)[result0]) && epIssued(&s.entityPool)[result0] && alive(&s.entityPool, result0)
+//@   ensures  placed: s.entities[result0.id].table == table && s.entities[result0.id].row == result1 && result1 == old(s.tables[table].len)
+//@   ensures  others: forall h Entity :: h.id != result0.id ==> alive(&s.entityPool, h) == old(alive(&s.entityPool, h))
+//@   ensures  count: *epAlive(&s.entityPool) == old(*epAlive(&s.entityPool)) + 1
+//@   ensures  tables: len(s.tables) == old(len(s.tables))
+
+//@ func (*storage).RemoveEntity
+//@   serves C01 C02 C04 C09 C10
+//@   requires indexInv(s) && epIssued(&s.entityPool)[entity] && s.observers != nil && len(s.observers.hasObservers) == 256
+//@   requires lockInv(&s.locks) && s.locks.locks.bits != 0xffffffffffffffff
+//@   panics   !alive(&s.entityPool, entity)
+//@   assert   HasObservers live: epRank(&s.entityPool)[uint32(entity.id)] == 0 && s.entityPool.reserved <= entity.id && s.entityPool.entities[entity.id] == entity
+//@   assert   HasObservers located: uint64(s.entities[entity.id].table) < uint64(len(s.tables)) && s.entities[entity.id].row < s.tables[s.entities[entity.id].table].len && rowEnt(&s.tables[s.entities[entity.id].table])[s.entities[entity.id].row] == entity
+//@   assert   HasObservers shape: uint64(s.tables[s.entities[entity.id].table].archetype) < uint64(len(s.archetypes)) && s.tables[s.entities[entity.id].table].len <= s.tables[s.entities[entity.id].table].cap
+//@   ensures  inv: indexInv(s)
+//@   ensures  dead: !alive(&s.entityPool, entity)
+//@   ensures  others: forall h Entity :: h.id != entity.id ==> alive(&s.entityPool, h) == old(alive(&s.entityPool, h))
+//@   ensures  count: *epAlive(&s.entityPool) == old(*epAlive(&s.entityPool)) - 1
+//@   ensures  locks: s.locks.locks == old(s.locks.locks)
+//@   xpure
